@@ -294,3 +294,46 @@ def fixed_points_elliptic_higher_dim(tier, rng, rep):
         rep.fail("reported_fixed_point_is_fixed", "recorded instance: conjugate of the standard rotation of H^3 by origin_to(klein point)", {"klein_point": v0.tolist(), "angle": th0})
     rep.case(key="recorded")
     _fixed_points(rep, rng, 150 if tier == 'thorough' else 30, [3, 4], ["elliptic"])
+
+
+@bounded(P, "far_loxodromics", functions=[H + "Isometry._fixpoint_data", H + "Isometry.fixed_point_pair", H + "Isometry.axis"],
+         note="loxodromic isometries whose axis lies far from the origin (conjugated by a translation of length 2..8.2 in a direction transverse to the axis): both reported fixed points are "
+              "ideal, fixed, attracting first, and equal the images of the standard axis' endpoints under the conjugating isometry (oracle independent of the eigenvector code)")
+def far_loxodromics(tier, rng, rep):
+    N = 240 if tier == 'thorough' else 60
+    rep.rule = "n = 2, 3, 4; translation length 0.7..3 (both directions); conjugating distance uniform in [2, 8.2]; direction of displacement random (not along the axis)"
+    rep.bound = f"{N} isometries"
+    for t in range(N):
+        n = 2 + t % 3
+        J = spec.J(n + 1)
+        D = float(rng.uniform(2, 8.2))
+        w = rng.normal(size=n); w[0] *= 0.3
+        w = w / np.linalg.norm(w) * np.tanh(D)
+        C = h.Point(w, model="klein").origin_to()
+        lam = float(rng.uniform(2.0, 20.0) ** rng.choice([-1, 1]))
+        base = h.Isometry.standard_loxodromic(n, lam)
+        T = C @ base @ C.inv()
+        inp = {"n": n, "conjugating_distance": D, "klein_point": w.tolist(), "parameter": lam, "matrix": np.asarray(T.proj_data).tolist()}
+
+        def body():
+            M = np.asarray(T.proj_data, dtype=float)
+            pair = np.asarray(T.fixed_point_pair().proj_data, dtype=float)
+            e = np.zeros((2, n + 1)); e[:, 0] = 1; e[0, 1], e[1, 1] = 1, -1
+            ends = np.asarray((C @ h.IdealPoint(e)).proj_data, dtype=float)
+            # which standard endpoint is attracting for base: the one whose eigenvalue has modulus > 1
+            Mb = np.asarray(base.proj_data, dtype=float)
+            mu = [float((e[i] @ Mb) @ e[i] / (e[i] @ e[i])) for i in (0, 1)]
+            order = [0, 1] if abs(mu[0]) > abs(mu[1]) else [1, 0]
+            for slot, (y, want) in enumerate(zip(pair, ends[order])):
+                q = (y @ J @ y) / (y @ y)
+                if not q <= 1e-6:
+                    rep.fail("fixed_point_in_closed_ball", f"reported fixed point {slot}: q/|y|^2 = {q} (outside the closed ball)", {**inp, "slot": slot}); return
+                cr = np.outer(y / np.linalg.norm(y), want / np.linalg.norm(want))
+                # conditioning: the matrix has entries ~ e^(2D) and the two endpoints are e^(-D)-close as seen from the origin; measured error of the
+                # unchanged library <= 1.5e-12 e^(2D) over 1500 samples, the tolerance is four times that
+                if not np.all(np.abs(cr - cr.T) <= max(1e-6, 6e-12 * np.exp(2 * D))):
+                    rep.fail("loxodromic_endpoints_attracting_first", f"reported fixed point {slot} is not the {'attracting' if slot == 0 else 'repelling'} endpoint of the axis", {**inp, "slot": slot}); return
+        rep.attempt("fixed_points_run", inp, body)
+        rep.case(key=(t,), nontrivial=D > 5, sample=inp if t == 0 else None)
+        if len(rep.failures) >= 3:
+            return
